@@ -192,6 +192,10 @@ class Model:
         w.drain_all()
         w.take_log()
 
+    def future(self, w):
+        return e1.drain_future(self, w, [('loss', s)
+                                         for s in range(self.T)])
+
     def canon(self, w):
         st = []
         for s in range(self.T):
@@ -281,13 +285,18 @@ def run(tier, seed, result):
     notes = []
     closure = True
     cap = 2
+    small = [(0, '/'), (0, '/x'), (1, '/')]
     for is_async in (False, True):
-        params = dict(is_async=is_async, cap=cap, seed=seed)
-        if tier == 'quick':
-            params['pairs'] = [(0, '/'), (0, '/x'), (1, '/')]
-        st = e1.explore('c16', params, result, max_depth=40)
-        closure = closure and st['closure']
-        notes.append(f'async={is_async}: {st}')
+        runs = [(dict(pairs=small), False)] if tier == 'quick' else \
+            [({}, False), (dict(pairs=small), True)]
+        for extra, fut in runs:
+            # fut: with the "every transport is lost" look-ahead as part of
+            # the state identity (e1.drain_future)
+            params = dict(is_async=is_async, cap=cap, seed=seed, **extra)
+            st = e1.explore('c16', params, result, max_depth=40,
+                            use_future=fut)
+            closure = closure and st['closure']
+            notes.append(f'async={is_async} {extra} look-ahead={fut}: {st}')
     result.assumptions += [
         f'at most {cap} session writes per (transport, namespace); connection '
         'generations per (transport, namespace) capped at 2 in the '
